@@ -201,8 +201,8 @@ def gen(ctx):
 def correspondence(ctx):
     core.assert_repo_loaded()
     corpus(ctx)
-    shlex_direct(ctx, ctx.pick(300, 6000))
-    run_cases(ctx, [gen(ctx) for _ in range(ctx.pick(400, 10000))])
+    shlex_direct(ctx, ctx.pick(250, 6000))
+    run_cases(ctx, [gen(ctx) for _ in range(ctx.pick(300, 10000))])
     if not ctx.quick:
         run_cases(ctx, [gen(ctx) for _ in range(600)], real_child=True)
 
